@@ -157,19 +157,16 @@ class StringGrader(ItemGrader):
         pattern = self.config['validation_pattern']
         if pattern is not None:
             # Make sure that the pattern matches the entire input
-            testpattern = pattern
-            if not pattern.endswith("^"):
-                testpattern += "$"
-
+            # (appending "$" is not enough: it binds to the last alternative of "cat|dog" only)
             if not accept_any:
                 # Make sure that expect matches the pattern
                 # If it doesn't, a student can never get this right
-                if re.match(testpattern, expect) is None:
+                if re.fullmatch(pattern, expect) is None:
                     msg = "The provided answer '{}' does not match the validation pattern '{}'"
                     raise ConfigError(msg.format(answer['expect'], pattern))
 
             # Check to see if the student input matches the validation pattern
-            if re.match(testpattern, student) is None:
+            if re.fullmatch(pattern, student) is None:
                 return self.construct_message(self.config['invalid_msg'],
                                               self.config['explain_validation'])
 
